@@ -354,6 +354,25 @@ fn path_target(c: &Cell, parts: &mut Parts) -> String {
             parts.top.push(format!("struct In {{ x: {bt}, y: i32 }}"));
             ("[2]In".to_string(), format!("[{inn}, {inn}]"), "[1usize].x")
         }
+        "pmem.elem" => {
+            parts.top.push(format!("struct Out {{ id: i32, inner: &[2]{bt} }}"));
+            parts.locals.push(format!("\tvar row: [2]{bt} = [{bv}, {bv}];"));
+            ("Out".to_string(), "Out { id: 1i32, inner: &row }".to_string(), ".inner[1usize]")
+        }
+        "pelem.elem" => {
+            parts.locals.push(format!("\tvar row: [2]{bt} = [{bv}, {bv}];"));
+            (format!("[2]&[2]{bt}"), "[&row, &row]".to_string(), "[1usize][1usize]")
+        }
+        "pelem.mem" => {
+            parts.top.push(format!("struct In {{ x: {bt}, y: i32 }}"));
+            parts.locals.push(format!("\tvar inn: In = {inn};"));
+            ("[2]&In".to_string(), "[&inn, &inn]".to_string(), "[1usize].x")
+        }
+        "mem.pelem.elem" => {
+            parts.top.push(format!("struct Out {{ id: i32, rows: [2]&[2]{bt} }}"));
+            parts.locals.push(format!("\tvar row: [2]{bt} = [{bv}, {bv}];"));
+            ("Out".to_string(), "Out { id: 1i32, rows: [&row, &row] }".to_string(), ".rows[1usize][1usize]")
+        }
         _ => {
             // "mem.elem"
             parts.top.push(format!("struct In {{ arr: [2]{bt}, y: i32 }}"));
